@@ -156,6 +156,16 @@ def run(ctx: Ctx, mode: str):
 
     rej = ctx.validate("Trace_Calendar", TRACE_CFG.format(mode=mode), None, shards=shards, key_of=key_of,
                        ntraces=len(shards), heap="6g", tag=mode)
+    # the same mapping while another thread asks the same calculator about years that share its cache slots: TLC-simulated
+    # two-thread schedules (YearStartCache.tla) enforced line by line; judged by Trace_Caches (answer = cold answer, and for
+    # the arithmetic calendars = the published year start)
+    from harness.props import c13
+
+    tev = c13.thread_year_start_events(ctx, rnd, 30 if q else 300, [c for c in ids if c not in ("Badi", "Um Al Qura")], ctx.seed + 31, "ysc_" + mode)
+    for e in tev:
+        e["self_only"] = mode == "self"      # C01 judges a calendar against itself; the published rules are C02's
+    ctx.validate("Trace_Caches", "SPECIFICATION Spec\nCHECK_DEADLOCK FALSE\n", None, shards=[tev],
+                 key_of=lambda ev, clause: {"clause": clause, "op": ev["op"], "cal": ev.get("cal"), "threads": True}, ntraces=1, tag="thr" + mode)
     # attach the calendar id to each reject key (the shard index gives it)
     for r in rej:
         if r.shard is not None:
